@@ -505,3 +505,160 @@ impl Name {
 pub fn lower(c: u8) -> u8 {
     if c >= b'A' && c <= b'Z' { c + 32 } else { c }
 }
+
+// ---------------------------------------------------------------------------------------------
+// Expected outputs of editing functions, composed from pieces of the input documents following the
+// README layout. A Blob is "an element as it sits inside a container": entry type byte + bytes.
+pub const XCAP: usize = 96;
+#[derive(Clone, Copy)]
+pub struct Blob {
+    pub tag: u8,
+    pub b: [u8; XCAP],
+    pub n: usize,
+}
+#[derive(Clone, Copy)]
+pub struct KeyB {
+    pub b: [u8; 2],
+    pub n: usize,
+}
+
+impl B {
+    /// node as an element blob
+    pub fn blob(&self, id: usize) -> Blob {
+        let x = self.nodes[id];
+        let mut o = Blob { tag: tag_byte(x.kind), b: [0; XCAP], n: x.len };
+        let mut i = 0;
+        while i < x.len {
+            o.b[i] = self.b[x.off + i];
+            i += 1;
+        }
+        o
+    }
+    /// the whole document as an element blob (scalar documents lose their 8-byte wrapper)
+    pub fn root_blob(&self) -> Blob {
+        self.blob(self.root)
+    }
+    pub fn keyb(&self, id: usize, i: usize) -> KeyB {
+        let x = self.nodes[id];
+        let mut k = KeyB { b: [0; 2], n: x.klen[i] };
+        let mut j = 0;
+        while j < x.klen[i] {
+            k.b[j] = self.b[x.koff[i] + j];
+            j += 1;
+        }
+        k
+    }
+}
+
+impl KeyB {
+    pub fn of(n: &Name) -> KeyB {
+        KeyB { b: n.b, n: n.len }
+    }
+    pub fn cmp(&self, o: &KeyB) -> Ordering {
+        let m = if self.n < o.n { self.n } else { o.n };
+        let mut i = 0;
+        while i < m {
+            if self.b[i] < o.b[i] {
+                return Ordering::Less;
+            }
+            if self.b[i] > o.b[i] {
+                return Ordering::Greater;
+            }
+            i += 1;
+        }
+        self.n.cmp(&o.n)
+    }
+}
+
+/// array container holding the given elements, as a (container) blob
+pub fn x_arr(items: &[Blob]) -> Blob {
+    let n = items.len();
+    let mut o = Blob { tag: 0x50, b: [0; XCAP], n: 0 };
+    o.b[0] = 0x80;
+    o.b[3] = n as u8;
+    let mut at = 4 + 4 * n;
+    let mut i = 0;
+    while i < n {
+        let it = items[i];
+        o.b[4 + 4 * i] = it.tag;
+        o.b[4 + 4 * i + 3] = it.n as u8;
+        let mut j = 0;
+        while j < it.n {
+            o.b[at + j] = it.b[j];
+            j += 1;
+        }
+        at += it.n;
+        i += 1;
+    }
+    o.n = at;
+    o
+}
+
+/// object container with the given members (keys must already be in canonical order)
+pub fn x_obj(keys: &[KeyB], items: &[Blob]) -> Blob {
+    let n = items.len();
+    let mut o = Blob { tag: 0x50, b: [0; XCAP], n: 0 };
+    o.b[0] = 0x40;
+    o.b[3] = n as u8;
+    let mut at = 4 + 8 * n;
+    let mut i = 0;
+    while i < n {
+        let k = keys[i];
+        o.b[4 + 4 * i] = 0x10;
+        o.b[4 + 4 * i + 3] = k.n as u8;
+        let mut j = 0;
+        while j < k.n {
+            o.b[at + j] = k.b[j];
+            j += 1;
+        }
+        at += k.n;
+        i += 1;
+    }
+    i = 0;
+    while i < n {
+        let it = items[i];
+        o.b[4 + 4 * n + 4 * i] = it.tag;
+        o.b[4 + 4 * n + 4 * i + 3] = it.n as u8;
+        let mut j = 0;
+        while j < it.n {
+            o.b[at + j] = it.b[j];
+            j += 1;
+        }
+        at += it.n;
+        i += 1;
+    }
+    o.n = at;
+    o
+}
+
+/// got == blob bytes
+pub fn same_blob(got: &[u8], e: &Blob) -> bool {
+    if got.len() != e.n {
+        return false;
+    }
+    let mut i = 0;
+    while i < e.n {
+        if got[i] != e.b[i] {
+            return false;
+        }
+        i += 1;
+    }
+    true
+}
+
+/// a blob as a stand-alone document: containers as they are, scalars wrapped in the scalar header
+pub fn x_doc(e: &Blob) -> Blob {
+    if e.tag == 0x50 {
+        return *e;
+    }
+    let mut o = Blob { tag: e.tag, b: [0; XCAP], n: 8 + e.n };
+    o.b[0] = 0x20;
+    o.b[4] = e.tag;
+    o.b[7] = e.n as u8;
+    let mut j = 0;
+    while j < e.n {
+        o.b[8 + j] = e.b[j];
+        j += 1;
+    }
+    o
+}
